@@ -45,9 +45,60 @@ def runForces (args : List String) : Option String := do
   let s := s ++ dumpForces nn (angleContribs fx x F p.angf)
   pure s
 
+def parseSlots : Nat → List String → Option (List Slot)
+  | 0, [] => some []
+  | n + 1, u :: a :: b :: c :: t :: rest => do
+    let u ← u.toNat?; let a ← a.toNat?; let b ← b.toNat?; let c ← c.toNat?; let t ← t.toNat?
+    let fs ← parseSlots n rest
+    pure (⟨u != 0, ⟨a, b, c, t⟩⟩ :: fs)
+  | _, _ => none
+
+def parseEdges : Nat → List String → Option (List EdgeRec)
+  | 0, [] => some []
+  | n + 1, a :: b :: f :: g :: rest => do
+    let a ← a.toNat?; let b ← b.toNat?; let f ← f.toNat?; let g ← g.toNat?
+    let es ← parseEdges n rest
+    pure (⟨a, b, f, g⟩ :: es)
+  | _, _ => none
+
+/-- `slots nn nf ne nt  9 params  nt*(tension bending)  nn*(x y z)  nf*(used a b c type)  ne*(n1 n2 f1 f2)`:
+    the live mesh of a refined cell as dumped by the harness -/
+def runSlots (args : List String) : Option String := do
+  let nn ← (← args[0]?).toNat?
+  let nf ← (← args[1]?).toNat?
+  let ne ← (← args[2]?).toNat?
+  let nt ← (← args[3]?).toNat?
+  let rest := args.drop 4
+  let nd := 9 + 2 * nt + 3 * nn
+  if rest.length ≠ nd + 5 * nf + 4 * ne then none
+  let ds ← parseFs (rest.take nd)
+  let da := ds.toArray
+  let g := fun (i : Nat) => da.getD i 0
+  let fts := (List.range nt).map fun t => (⟨g (9 + 2 * t), g (10 + 2 * t)⟩ : FaceType Float)
+  let p : Params Float := { K := g 0, maxP := g 1, aem := g 2, iso := g 3, angf := g 4, minVol := g 5,
+                            growth := g 6, tvol := g 7, dt := g 8, ft := fts }
+  let o := 9 + 2 * nt
+  let pos : Array (V3 Float) := (Array.range nn).map fun i => ⟨g (o + 3 * i), g (o + 3 * i + 1), g (o + 3 * i + 2)⟩
+  let x := fun (i : Nat) => pos.getD i ⟨0, 0, 0⟩
+  let S ← parseSlots nf ((rest.drop nd).take (5 * nf))
+  let E ← parseEdges ne (rest.drop (nd + 5 * nf))
+  if S.any (fun s => s.used && (s.face.a ≥ nn || s.face.b ≥ nn || s.face.c ≥ nn || s.face.ty ≥ nt)) then none
+  if E.any (fun e => e.n1 ≥ nn || e.n2 ≥ nn || e.f1 ≥ nf || e.f2 ≥ nf) then none
+  let fx := FX.float
+  let F := liveFaces S
+  let pre := prelude fx x F p
+  let s := s!"ok 1 {showF pre.pressure} {showF pre.volume} {showF pre.area} {showF pre.targetArea}"
+  let s := s ++ dumpForces nn (internalContribsSlots fx x S E p)
+  let s := s ++ dumpForces nn (pressureContribs fx x F pre.pressure)
+  let s := s ++ dumpForces nn (tensionContribs fx x F p pre.area pre.targetArea)
+  let s := s ++ dumpForces nn (bendingContribsOf fx x p (E.map (hingeOfEdge S)))
+  let s := s ++ dumpForces nn (angleContribs fx x F p.angf)
+  pure s
+
 def step (line : String) : String :=
   match (line.trimAscii.toString.splitOn " ").filter (· ≠ "") with
   | "forces" :: args => (runForces args).getD "bad-op"
+  | "slots" :: args => (runSlots args).getD "bad-op"
   | _ => "bad-op"
 
 partial def loop (h : IO.FS.Stream) (out : IO.FS.Stream) : IO Unit := do
